@@ -45,7 +45,8 @@ TWIN_P = 0.08   # this share of the runs drives two independent instances of the
 RUN_WALL_LIMIT_S = 120
 BATCH = 400
 COMPONENTS = {"real": ["twisted.conch.telnet.Telnet.will/wont/do/dont", "twisted.conch.telnet.Telnet.telnet_WILL/WONT/DO/DONT + willMap/wontMap/doMap/dontMap",
-                       "twisted.conch.telnet.Telnet.dataReceived", "twisted.internet.defer.Deferred"],
+                       "twisted.conch.telnet.Telnet.dataReceived", "twisted.conch.telnet.Telnet.connectionLost", "twisted.conch.telnet.Telnet.disableLocal/disableRemote (stock)",
+                       "twisted.internet.defer.Deferred (cancel, addTimeout)"],
               "stub": ["TCP byte streams in both directions (detsim.net.Link): per-direction FIFO, tape-chosen direction and segment size",
                        "application policy enableLocal/enableRemote (accepts what the endpoint itself requests plus a tape-chosen subset)",
                        "application giving up on a request (Deferred.cancel / Deferred.addTimeout on the simulated clock)",
@@ -541,4 +542,12 @@ MUTANTS = [
     "(fires-exactly-once:will/do; handler-raised:ValueError Stumped; immediate-or-wire; wire-form)",
     "telnet.py dataReceived state 'command': an option byte equal to IAC re-enters 'escaped' instead of completing the command -> caught (fires-exactly-once; option code 255)",
     "telnet.py do_yes_false -> `self._will(option)` -> SURVIVES: equivalent for the same reason (DO never reaches a (yes, not negotiating) perspective)",
+    "giving-up family (cancel()/addTimeout of a request's Deferred while it is unanswered): will()/do() Deferreds get a canceller that clears negotiating/onResult and "
+    "sends the opposite verb -> caught (message-bound:loop); the same canceller without the withdrawal message -> caught (handler-raised:AssertionError do_yes_true); "
+    "dont(): canceller resets the perspective and re-sends DO -> caught (message-bound:loop); will(): canceller errbacks the Deferred itself and leaves it in onResult "
+    "-> caught (handler-raised:AlreadyCalledError; connectionLost-raised:AlreadyCalledError)",
+    "raising-hook family (own/stock disable* hooks, crashing enable* outside the policy; the exception ends the connection): do_no_true/dont_yes_true call the local hook "
+    "before d.callback(True) -> caught (fires-exactly-once:wont); wont_yes_true calls disableRemote before d.callback(True) -> caught (fires-exactly-once:dont)",
+    "connection-end family: connectionLost skips `him.onResult` -> caught (fires-exactly-once:do/dont); connectionLost errbacks a Deferred twice -> caught "
+    "(connectionLost-raised:AlreadyCalledError)",
 ]
